@@ -262,6 +262,14 @@ def r3(ctx):
         ok = _ret_add(ctx, b, w0, w1)
         ctx.inst(R, f"{fid}:sum", ok, b.span, f"= {w0.split('::')[-1]} + {w1.split('::')[-1]}" if ok else
                  f"`{fid}` is no longer the sum of {w0} and {w1}: host, simulation and epoch time stop agreeing")
+    ss = ctx.w.bodies.get(H + "since_epoch_at_step_start")
+    if ss:
+        at = Slicer(ctx.w).atoms(ss, {"c": {"l": 0}})
+        need = ["field:" + H + "since_epoch", "field:" + H + "start_offset", "field:" + H + "elapsed"]
+        miss = [x.rsplit("::", 1)[1] for x in need if x not in at]
+        ctx.inst(R, H + "since_epoch_at_step_start:sum", not miss, ss.span, "= since_epoch + start_offset + elapsed" if not miss else
+                 f"`{H}since_epoch_at_step_start` no longer adds {miss}: the epoch time handed to the filesystem / io_uring lags the host's own since_epoch() "
+                 "(for a host registered mid-run by the whole registration offset)")
     shapes = {}
     for b, bb, t in who_calls(ctx.w, H + "new"):
         if b.crate != "turmoil" or not b.id.startswith("turmoil::sim::"):
@@ -435,6 +443,13 @@ def r11(ctx, R="C05-R11"):
             if t.get("replace") or (l in rep_locals and l not in moved):
                 sites.append((bb, t.get("s") or ct.span))
     enters = [(bb, t) for bb, t in ct.calls(re.compile(r"^tokio::runtime::Runtime::enter$|^tokio::runtime::Handle::enter$"))]
+    # ... and it is the *old* runtime that is entered: the value taken out of Rt::tokio, not the field (which already holds the
+    # replacement the next incarnation will run on - anything a destructor spawns there survives the crash)
+    def old_rt(t):
+        o = deref_origin(ct, t["args"][0])
+        return not (o["k"] == "place" and place_last_field(o["p"]) == "turmoil::rt::Rt::tokio")
+    wrong = [t for bb, t in enters if not old_rt(t)]
+    enters = [(bb, t) for bb, t in enters if old_rt(t)]
     ok = False
     for sb, ss in sites:
         for eb, et in enters:
@@ -446,7 +461,8 @@ def r11(ctx, R="C05-R11"):
     ctx.inst(R, "cancel_tasks:tasks-dropped-inside-runtime", bool(sites) and ok, sites[0][1] if sites else ct.span,
              "the old LocalSet is destroyed while a runtime is entered" if sites and ok else
              ("Rt::cancel_tasks destroys the old LocalSet (the host's tasks) outside any runtime: a destructor run by Sim::crash / Sim::bounce that reads tokio::time::Instant "
-              "(`start.elapsed()` in a guard's Drop) gets the machine's wall clock - 5-27 ms instead of the 2 s of virtual time that passed, different on every run" if sites else
+              "(`start.elapsed()` in a guard's Drop) gets the machine's wall clock - 5-27 ms instead of the 2 s of virtual time that passed, different on every run"
+              + (" [a runtime is entered, but it is Rt::tokio after the replacement: the destructors run inside the runtime of the next incarnation]" if wrong else "") if sites else
               "no destruction of the old LocalSet found in Rt::cancel_tasks: re-derive"))
     ctx.floor(R, 1)
 
